@@ -246,7 +246,7 @@ def run(chk):
                             if str(x).startswith("bad array"):
                                 chk.violated("R6", "%s: std::array index" % f["name"], "an element access leaves the array: %s" % x, loc)
                             else:
-                                chk.violated("R6", "%s: std::array index" % f["name"], "index is not a constant and could not be bounded (%s)" % str(x)[:120], loc)
+                                chk.inconclusive("R6", "%s: std::array index" % f["name"], "index is not a constant and the function could not be evaluated to bound it (%s)" % str(x)[:120], loc)
                 if kind == "unclassified":
                     chk.inconclusive("R2", inst, "external callee %s is not in the classification table (noexcept=%s): add it with a reason" % (gq, g.get("nothrow")), loc)
                 elif kind == "may_throw":
